@@ -578,6 +578,13 @@ def trace_id_uses(ctx, world):
                     reads.append(x)
                 if isinstance(x, ast.Attribute) and isinstance(x.ctx, ast.Load) and x.attr == "top" and _is_tracestack_expr(world, mod, x.value, fnode):
                     reads.append(x)
+            # `with <trace stack>.new_trace() as t`: t IS the id of the new trace
+            for x in own:
+                if isinstance(x, (ast.With, ast.AsyncWith)):
+                    for it_ in x.items:
+                        ce = it_.context_expr
+                        if isinstance(ce, ast.Call) and isinstance(ce.func, ast.Attribute) and ce.func.attr == "new_trace" and isinstance(it_.optional_vars, ast.Name):
+                            tainted.add(it_.optional_vars.id)
             # locals copied from reads (one assignment level, to a fixpoint)
             changed = True
             packed = {}  # local name bound to a tuple display -> (arity, positions holding a trace id)
@@ -681,6 +688,12 @@ def _use_ok(world, mod, rd, tainted):
         return False, "an operand of arithmetic"
     if isinstance(p, ast.Call) and rd in p.args:
         f = world.repo.resolve_expr(mod, p.func)
+        if f is None and isinstance(p.func, ast.Name):
+            # a local alias bound once in the enclosing function: make_box = new_box
+            encl = _enclosing_def(rd)
+            binds = [y for y in ast.walk(encl) if isinstance(y, ast.Assign) and len(y.targets) == 1 and isinstance(y.targets[0], ast.Name) and y.targets[0].id == p.func.id] if encl is not None else []
+            if len(binds) == 1 and isinstance(binds[0].value, (ast.Name, ast.Attribute)):
+                f = world.repo.resolve_expr(mod, binds[0].value)
         if f is not None and f.qual in ("autograd.tracer.new_box",):
             return p.args.index(rd) == 1, "a non-trace argument of new_box"
         if isinstance(p.func, ast.Subscript) or isinstance(p.func, ast.Call):
